@@ -18,9 +18,10 @@ Proof. induction n as [|n IH]; cbn; auto. Qed.
 Lemma run_calls cs : run false (flat_map call_events cs) = Some false.
 Proof.
   induction cs as [|c cs IH]; [reflexivity|].
-  cbn [flat_map]. destruct c as [f|]; cbn [call_events].
+  cbn [flat_map]. destruct c as [f| |f]; cbn [call_events].
   - cbn [app run]. rewrite <- app_assoc, run_uses. cbn [app run]. exact IH.
   - cbn [app run]. exact IH.
+  - cbn [app run]. rewrite <- app_assoc, run_uses. cbn [app run]. exact IH.
 Qed.
 
 Lemma acq_order_snoc l i a :
@@ -29,7 +30,7 @@ Proof.
   unfold acq_order. rewrite flat_map_app. cbn [flat_map]. rewrite app_nil_r. reflexivity.
 Qed.
 Lemma frames_of_snoc log i c :
-  frames_of (log ++ [(i, c)]) = frames_of log ++ match c with CDo f => [f] | CCtl => [] end.
+  frames_of (log ++ [(i, c)]) = frames_of log ++ match c with CDo f => [f] | CCtl => [] | CAb f => [f] end.
 Proof.
   unfold frames_of. rewrite flat_map_app. cbn [flat_map]. rewrite app_nil_r. reflexivity.
 Qed.
@@ -85,11 +86,12 @@ Section Proofs.
     intros HL Hp. specialize (HL i). unfold proj in HL. cbn [todo] in HL.
     destruct (owns {| owner := c_owner s; todo := fun i0 => caller_events (callers s i0) |} i) eqn:Eo.
     - apply owns_true in Eo. exact Eo.
-    - exfalso. unfold caller_events in HL. destruct (ph (callers s i)) as [|f rest|f r|[|]]; try congruence.
+    - exfalso. unfold caller_events in HL. destruct (ph (callers s i)) as [|f rest|f r|[|]|f rest]; try congruence.
       + destruct rest; cbn in HL; discriminate.
       + cbn in HL. discriminate.
       + cbn in HL. discriminate.
       + cbn in HL. discriminate.
+      + destruct rest; cbn in HL; discriminate.
   Qed.
 
   Lemma owner_busy s i : Linv s -> c_owner s = Some i -> ph (callers s i) <> PIdle.
@@ -107,6 +109,9 @@ Section Proofs.
     do_frames (reqs i) =
     map fst (results (callers s i)) ++ cur_frame (ph (callers s i)) ++ do_frames (pending (callers s i)).
   Definition wf_todo (c : caller) : Prop := Forall wf (cur_frame (ph c) ++ do_frames (pending c)).
+  (* the caller neither is inside an abandoned call nor has one ahead *)
+  Definition no_ab (c : caller) : Prop :=
+    no_abandon (pending c) = true /\ match ph c with PAbWriting _ _ => False | _ => True end.
 
   Definition holder_ok (l : list (nat * action)) (s : cst) (i : nat) : Prop :=
     exists log',
@@ -121,6 +126,7 @@ Section Proofs.
           acq_order l = log' ++ [(i, CCtl)] /\ wire s = concat (frames_of log') /\
           reads s = length (frames_of log')
       | PIdle => False
+      | PAbWriting _ _ => False
       end.
 
   Definition Winv (reqs : nat -> list call) (l : list (nat * action)) (s : cst) : Prop :=
@@ -128,6 +134,7 @@ Section Proofs.
     (forall i, results_ok (callers s i)) /\
     (forall i, own_calls reqs s i) /\
     (forall i, wf_todo (callers s i)) /\
+    (forall i, no_ab (callers s i)) /\
     Forall wf (frames_of (acq_order l)) /\
     match c_owner s with
     | None => wire s = concat (frames_of (acq_order l)) /\ reads s = length (frames_of (acq_order l))
@@ -143,28 +150,31 @@ Section Proofs.
 
   Ltac per_thread H i :=
     let j := fresh "j" in let Hne := fresh "Hne" in
-    intros j; unfold results_ok, own_calls, wf_todo; cbn [callers];
+    intros j; unfold results_ok, own_calls, wf_todo, no_ab; cbn [callers];
     destruct (Nat.eq_dec j i) as [->|Hne];
     [rewrite !set_caller_same; cbn [ph pending results]
     |rewrite !set_caller_other by exact Hne; exact (H j)].
 
   Lemma Winv_step reqs l s i a s' : Winv reqs l s -> cstep s i a s' -> Winv reqs (l ++ [(i, a)]) s'.
   Proof.
-    intros (HL & HR & HO & HWF & HLOG & HM) Hst.
+    intros (HL & HR & HO & HWF & HNA & HLOG & HM) Hst.
     destruct (Linv_step _ _ _ _ HL Hst) as [HL' Hown].
     unfold Winv. split; [exact HL'|]. clear HL'.
     rewrite acq_order_snoc.
-    pose proof (HR i) as HRi. pose proof (HO i) as HOi. pose proof (HWF i) as HWFi.
-    unfold results_ok, own_calls, wf_todo in HRi, HOi, HWFi.
+    pose proof (HR i) as HRi. pose proof (HO i) as HOi. pose proof (HWF i) as HWFi. pose proof (HNA i) as HNAi.
+    unfold results_ok, own_calls, wf_todo, no_ab in HRi, HOi, HWFi, HNAi.
     inversion Hst; subst; cbn [c_owner wire reads];
-      match goal with E : ph (callers s i) = _ |- _ => rewrite E in HOi, HWFi end;
-      try match goal with E : pending (callers s i) = _ |- _ => rewrite E in HOi, HWFi end.
+      match goal with E : ph (callers s i) = _ |- _ => rewrite E in HOi, HWFi, HNAi end;
+      try match goal with E : pending (callers s i) = _ |- _ => rewrite E in HOi, HWFi, HNAi end;
+      (* the steps of an abandoned call cannot happen *)
+      try (exfalso; destruct HNAi as [Hp Hph]; first [exact Hph | cbn in Hp; discriminate]).
     - (* acquire for a request *)
       rewrite Hown in HM. destruct HM as [Hw Hr].
       assert (Hf : wf f) by (cbn in HWFi; exact (Forall_inv HWFi)).
       split; [per_thread HR i; exact HRi|].
       split; [per_thread HO i; exact HOi|].
       split; [per_thread HWF i; exact HWFi|].
+      split; [per_thread HNA i; destruct HNAi as [Hp _]; split; [first [exact Hp | cbn in Hp; exact Hp]|exact I]|].
       split; [rewrite frames_of_snoc; apply Forall_app; split; [exact HLOG|constructor; [exact Hf|constructor]]|].
       unfold holder_ok. rewrite acq_order_snoc. cbn [callers wire reads]. rewrite set_caller_same. cbn [ph].
       exists (acq_order l), []. rewrite app_nil_r. auto.
@@ -173,6 +183,7 @@ Section Proofs.
       split; [per_thread HR i; exact HRi|].
       split; [per_thread HO i; exact HOi|].
       split; [per_thread HWF i; exact HWFi|].
+      split; [per_thread HNA i; destruct HNAi as [Hp _]; split; [first [exact Hp | cbn in Hp; exact Hp]|exact I]|].
       split; [rewrite frames_of_snoc, app_nil_r; exact HLOG|].
       unfold holder_ok. rewrite acq_order_snoc. cbn [callers wire reads]. rewrite set_caller_same. cbn [ph].
       exists (acq_order l). auto.
@@ -183,6 +194,7 @@ Section Proofs.
       split; [per_thread HR i; exact HRi|].
       split; [per_thread HO i; exact HOi|].
       split; [per_thread HWF i; exact HWFi|].
+      split; [per_thread HNA i; destruct HNAi as [Hp _]; split; [first [exact Hp | cbn in Hp; exact Hp]|exact I]|].
       split; [exact HLOG|].
       unfold holder_ok. rewrite acq_order_snoc, app_nil_r. cbn [callers wire reads]. rewrite set_caller_same. cbn [ph].
       exists log', (written ++ [b]). repeat split; auto.
@@ -195,6 +207,7 @@ Section Proofs.
       split; [per_thread HR i; exact HRi|].
       split; [per_thread HO i; exact HOi|].
       split; [per_thread HWF i; exact HWFi|].
+      split; [per_thread HNA i; destruct HNAi as [Hp _]; split; [first [exact Hp | cbn in Hp; exact Hp]|exact I]|].
       split; [exact HLOG|].
       unfold holder_ok. rewrite acq_order_snoc, app_nil_r. cbn [callers wire reads]. rewrite set_caller_same. cbn [ph].
       exists log'. repeat split; auto.
@@ -207,6 +220,7 @@ Section Proofs.
       split; [per_thread HR i; exact HRi|].
       split; [per_thread HO i; exact HOi|].
       split; [per_thread HWF i; exact HWFi|].
+      split; [per_thread HNA i; destruct HNAi as [Hp _]; split; [first [exact Hp | cbn in Hp; exact Hp]|exact I]|].
       split; [exact HLOG|].
       unfold holder_ok. rewrite acq_order_snoc, app_nil_r. cbn [callers wire reads]. rewrite set_caller_same. cbn [ph].
       exists log'. auto.
@@ -220,6 +234,7 @@ Section Proofs.
               rewrite map_app, <- app_assoc; exact HOi|].
       split; [per_thread HWF i; cbn [cur_frame app]; cbn [cur_frame app] in HWFi;
               exact (Forall_inv_tail HWFi)|].
+      split; [per_thread HNA i; destruct HNAi as [Hp _]; split; [first [exact Hp | cbn in Hp; exact Hp]|exact I]|].
       split; [exact HLOG|].
       rewrite Ha, frames_of_snoc, concat_snoc, app_length. cbn [length]. split; [exact Hw|lia].
     - (* release after Close / Connect *)
@@ -230,19 +245,24 @@ Section Proofs.
       split; [per_thread HO i; cbn [cur_frame];
               exact HOi|].
       split; [per_thread HWF i; cbn [cur_frame app]; exact HWFi|].
+      split; [per_thread HNA i; destruct HNAi as [Hp _]; split; [first [exact Hp | cbn in Hp; exact Hp]|exact I]|].
       split; [exact HLOG|].
       rewrite Ha, frames_of_snoc, app_nil_r. auto.
   Qed.
 
   Definition wf_reqs (reqs : nat -> list call) : Prop := forall i, Forall wf (do_frames (reqs i)).
 
-  Lemma creach_Winv reqs l s : wf_reqs reqs -> creach reqs l s -> Winv reqs l s.
+  (* nobody abandons a call *)
+  Definition na_reqs (reqs : nat -> list call) : Prop := forall i, no_abandon (reqs i) = true.
+
+  Lemma creach_Winv reqs l s : wf_reqs reqs -> na_reqs reqs -> creach reqs l s -> Winv reqs l s.
   Proof.
-    intros Hwf Hr. induction Hr as [|l s i a s' Hr IH Hst].
+    intros Hwf Hna Hr. induction Hr as [|l s i a s' Hr IH Hst].
     - unfold Winv. split; [apply Linv_init|].
       split; [intros i; constructor|].
       split; [intros i; unfold own_calls; reflexivity|].
       split; [intros i; exact (Hwf i)|].
+      split; [intros i; split; [exact (Hna i)|exact I]|].
       split; [constructor|]. cbn. auto.
     - eapply Winv_step; eauto.
   Qed.
@@ -274,40 +294,41 @@ Section Proofs.
 
   (* whenever the mutex is free, the wire log is exactly the concatenation of the whole request
      frames, in the order in which the mutex was acquired, and the transport decodes it so *)
-  Theorem wire_whole_frames_in_lock_order reqs l s : wf_reqs reqs -> creach reqs l s ->
+  Theorem wire_whole_frames_in_lock_order reqs l s : wf_reqs reqs -> na_reqs reqs -> creach reqs l s ->
     c_owner s = None ->
     wire s = concat (frames_of (acq_order l)) /\ decode (wire s) = frames_of (acq_order l).
   Proof.
-    intros Hwf Hr Ho. destruct (creach_Winv _ _ _ Hwf Hr) as (_ & _ & _ & _ & HLOG & HM).
+    intros Hwf Hna Hr Ho. destruct (creach_Winv _ _ _ Hwf Hna Hr) as (_ & _ & _ & _ & _ & HLOG & HM).
     rewrite Ho in HM. destruct HM as [Hw _]. split; [exact Hw|].
     rewrite Hw. apply decode_concat. exact HLOG.
   Qed.
 
   (* while a caller holds the mutex: all earlier frames are on the wire whole and in lock order,
      followed by a prefix of the holder's own frame and nothing else *)
-  Theorem wire_never_interleaved reqs l s i : wf_reqs reqs -> creach reqs l s ->
+  Theorem wire_never_interleaved reqs l s i : wf_reqs reqs -> na_reqs reqs -> creach reqs l s ->
     c_owner s = Some i ->
     exists log' c written rest,
       acq_order l = log' ++ [(i, c)] /\
       wire s = concat (frames_of log') ++ written /\
-      match c with CDo f => f = written ++ rest | CCtl => written = [] end.
+      match c with CDo f => f = written ++ rest | CCtl => written = [] | CAb _ => False end.
   Proof.
-    intros Hwf Hr Ho. destruct (creach_Winv _ _ _ Hwf Hr) as (_ & _ & _ & _ & _ & HM).
+    intros Hwf Hna Hr Ho. destruct (creach_Winv _ _ _ Hwf Hna Hr) as (_ & _ & _ & _ & _ & _ & HM).
     rewrite Ho in HM. destruct HM as (log' & HM).
-    destruct (ph (callers s i)) as [|f rest|f r|b].
+    destruct (ph (callers s i)) as [|f rest|f r|b|f rest].
     - contradiction.
     - destruct HM as (written & Ha & Hf & Hw & _). exists log', (CDo f), written, rest. auto.
     - destruct HM as (Ha & Hw & _). exists log', (CDo f), f, []. rewrite app_nil_r. auto.
     - destruct HM as (Ha & Hw & _). exists log', CCtl, [], []. rewrite app_nil_r. auto.
+    - contradiction.
   Qed.
 
   (* every caller receives the reply to its own request; its completed calls are its own requests
      in its own order *)
-  Theorem every_caller_gets_own_reply reqs l s i : wf_reqs reqs -> creach reqs l s ->
+  Theorem every_caller_gets_own_reply reqs l s i : wf_reqs reqs -> na_reqs reqs -> creach reqs l s ->
     (forall f r, In (f, r) (results (callers s i)) -> r = Some (reply_of f)) /\
     exists later, do_frames (reqs i) = map fst (results (callers s i)) ++ later.
   Proof.
-    intros Hwf Hr. destruct (creach_Winv _ _ _ Hwf Hr) as (_ & HR & HO & _). split.
+    intros Hwf Hna Hr. destruct (creach_Winv _ _ _ Hwf Hna Hr) as (_ & HR & HO & _). split.
     - intros f r Hin. specialize (HR i). unfold results_ok in HR. rewrite Forall_forall in HR.
       exact (HR _ Hin).
     - eexists. exact (HO i).
@@ -316,11 +337,12 @@ Section Proofs.
   (* ---- the executable scheduler only takes steps of the relation ---- *)
   Lemma step_fun_sound s i a s' : step_fun reply_of decode s i = Some (a, s') -> cstep s i a s'.
   Proof.
-    unfold step_fun. destruct (ph (callers s i)) as [|f rest|f r|b] eqn:Ep.
+    unfold step_fun. destruct (ph (callers s i)) as [|f rest|f r|b|f rest] eqn:Ep.
     - destruct (pending (callers s i)) as [|c rs] eqn:Eq; [discriminate|].
-      destruct c as [f|]; destruct (c_owner s) eqn:Eo; try discriminate; intros H; inversion H; subst.
+      destruct c as [f| |f]; destruct (c_owner s) eqn:Eo; try discriminate; intros H; inversion H; subst.
       + apply c_acq_do; auto.
       + apply c_acq_ctl; auto.
+      + apply c_acq_ab; auto.
     - destruct rest as [|b rest]; intros H; inversion H; subst.
       + apply c_read; auto.
       + eapply c_write; eauto.
@@ -328,6 +350,9 @@ Section Proofs.
     - destruct b; intros H; inversion H; subst.
       + apply c_rel_ctl; auto.
       + apply c_touch; auto.
+    - destruct rest as [|b rest]; intros H; inversion H; subst.
+      + eapply c_ab_rel; eauto.
+      + eapply c_ab_write; eauto.
   Qed.
 
   Lemma run_schedule_reach reqs sched : forall l s, creach reqs l s ->
